@@ -1833,7 +1833,7 @@ package otto
 //@ spec intArgOutside(call FunctionCall, lo float64, hi float64) bool = es5ToInteger(numOf(argOf(call, 0))) < lo || es5ToInteger(numOf(argOf(call, 0))) > hi
 //@ spec intArgInside(call FunctionCall, lo float64, hi float64) bool = es5ToInteger(numOf(argOf(call, 0))) >= lo && es5ToInteger(numOf(argOf(call, 0))) <= hi
 //@ func builtinNumberToFixed
-//@   props C06
+//@   props C06 C19
 //@   nosafety
 //@   requires wfCall(call) && argsOK(call.ArgumentList) && call.runtime != nil && isGoNumber(call.This)
 //@   requires isGoNumber(argOf(call, 0)) && jsValue(argOf(call, 0))
@@ -1844,7 +1844,7 @@ package otto
 //@   at_call strconv.FormatFloat : fabs(arg0) < 1000000000000000000000.0 && arg1 == 'f'
 //@   ensures intArgInside(call, 0.0, 20.0) && isNaN(numOf(call.This)) ==> result.kind == valueString && is(result.value, string) && result.value.(string) == "NaN"
 //@ func builtinNumberToExponential
-//@   props C06
+//@   props C06 C19
 //@   nosafety
 //@   requires wfCall(call) && argsOK(call.ArgumentList) && call.runtime != nil && isGoNumber(call.This)
 //@   requires isGoNumber(argOf(call, 0)) && jsValue(argOf(call, 0))
@@ -1854,7 +1854,7 @@ package otto
 //@   ensures isNaN(numOf(call.This)) || isInf(numOf(call.This)) || !intArgOutside(call, 0.0, 20.0)
 //@   ensures isNaN(numOf(call.This)) ==> result.kind == valueString && is(result.value, string) && result.value.(string) == "NaN"
 //@ func builtinNumberToPrecision
-//@   props C06
+//@   props C06 C19
 //@   nosafety
 //@   requires wfCall(call) && argsOK(call.ArgumentList) && call.runtime != nil && isGoNumber(call.This)
 //@   requires isGoNumber(argOf(call, 0)) && jsValue(argOf(call, 0))
@@ -2098,6 +2098,9 @@ package otto
 //@   requires *obj != nil
 //@   abstract_callee (*object).defineOwnProperty
 //@   at_call (*object).defineOwnProperty : arg1 == name && arg3 && dig(arg2.mode, 0) != 1 && (is(arg2.value, Value) && arg2.value.(Value).kind != valueEmpty ==> dig(arg2.mode, 2) != 1)
+//@   calls (*property).configureOff(_) as c whenret false
+//@   calls (*property).writeOff(_) as w whenret false
+//@   calls (*object).defineOwnProperty(_, _, _, _) whenret called(c) || called(w)
 //@   ensures result
 //@ func builtinObjectSeal$1
 //@   props C07
@@ -2901,7 +2904,7 @@ package otto
 
 // 15.5.4.20 trim: the characters stripped are exactly WhiteSpace (7.2: TAB VT FF SP NBSP BOM
 // and category Zs) and LineTerminator (7.3: LF CR LS PS).
-//@ sanity[C09] builtinStringTrimWhitespace == "\u0009\u000A\u000B\u000C\u000D\u0020\u00A0\u1680\u180E\u2000\u2001\u2002\u2003\u2004\u2005\u2006\u2007\u2008\u2009\u200A\u2028\u2029\u202F\u205F\u3000\uFEFF"
+//@ initarg[C09,C13,C06] builtinStringTrimWhitespace = "\u0009\u000A\u000B\u000C\u000D\u0020\u00A0\u1680\u180E\u2000\u2001\u2002\u2003\u2004\u2005\u2006\u2007\u2008\u2009\u200A\u2028\u2029\u202F\u205F\u3000\uFEFF"
 //@ func builtinStringTrimStart
 //@   props C09
 //@   requires wfCall(call) && argsOK(call.ArgumentList) && call.runtime != nil
